@@ -272,8 +272,16 @@ def flip_comparisons(tree):
                     and not (isinstance(n.comparators[0], ast.Constant) and n.comparators[0].value is None):
                 count[0] += 1
                 return ast.copy_location(ast.Compare(left=n.comparators[0], ops=[flip[type(n.ops[0])]()], comparators=[n.left]), n)
+            elif isinstance(n.func, ast.Attribute) and isinstance(n.func.value, ast.Name) and n.args and cur and \
+                    not any(isinstance(a, ast.Starred) for a in n.args) and not any(k.arg is None for k in n.keywords):
+                ps = method_params(local_class(cur[0], n.func.value.id), n.func.attr)
+                if ps and len(n.args) <= len(ps) and not set(ps[:len(n.args)]) & {k.arg for k in n.keywords}:
+                    n.keywords = [ast.keyword(arg=nm, value=a) for nm, a in zip(ps, n.args)] + n.keywords
+                    n.args = []
+                    count[0] += 1
             return n
     for fn in [x for x in ast.walk(tree) if isinstance(x, (ast.FunctionDef, ast.AsyncFunctionDef))]:
+        cur[:] = [fn]
         T().visit(fn)
     ast.fix_missing_locations(tree)
     return count[0]
@@ -295,7 +303,26 @@ def _signatures(trees):
                 init = [x for x in st.body if isinstance(x, ast.FunctionDef) and x.name == "__init__"]
                 if len(init) == 1 and not st.decorator_list and not init[0].args.vararg and not init[0].args.kwarg and not init[0].args.posonlyargs:
                     sig[st.name] = [p.arg for p in init[0].args.args][1:]
-    return {k: v for k, v in sig.items() if seen.get(k) == 1}
+    out = {k: v for k, v in sig.items() if seen.get(k) == 1}
+    # classes of the tree set with a unique simple name: ".Class" -> (base simple names, {method: parameters after self | None})
+    cseen = {}
+    for tree in trees:
+        for cl in [x for x in ast.walk(tree) if isinstance(x, ast.ClassDef)]:
+            cseen[cl.name] = cseen.get(cl.name, 0) + 1
+            meths = {}
+            for st in cl.body:
+                if isinstance(st, ast.FunctionDef):
+                    decos = {ast.unparse(d).split("(")[0] for d in st.decorator_list}
+                    a = st.args
+                    if decos - {"abstractmethod", "abc.abstractmethod"} or a.vararg or a.kwarg or a.posonlyargs:
+                        meths[st.name] = None
+                    else:
+                        meths[st.name] = [p.arg for p in a.args[1:]]
+            out["." + cl.name] = ([ast.unparse(b_).split(".")[-1] for b_ in cl.bases], meths)
+    for k, n_ in cseen.items():
+        if n_ != 1:
+            out.pop("." + k, None)
+    return out
 
 
 def keyword_arguments(tree, sig):
@@ -304,6 +331,40 @@ def keyword_arguments(tree, sig):
     count = [0]
     local_defs = {st.name for st in ast.walk(tree) if isinstance(st, (ast.FunctionDef, ast.ClassDef))}
     imported = {(al.asname or al.name) for st in ast.walk(tree) if isinstance(st, ast.ImportFrom) and (st.module or "").startswith("batchie") for al in st.names}
+
+    cur = []
+
+    def known_class(e):
+        if isinstance(e, ast.Subscript) and ast.unparse(e.value).split(".")[-1] == "Optional":
+            return known_class(e.slice)
+        if isinstance(e, ast.Name) and "." + e.id in sig and (e.id in local_defs or e.id in imported):
+            return e.id
+        return None
+
+    def local_class(fn, name):
+        """the repository class a local certainly is an instance of (annotated parameter never rebound, or every binding `name = C(..)`)"""
+        stores = [x for x in ast.walk(fn) if isinstance(x, ast.Name) and x.id == name and isinstance(x.ctx, (ast.Store, ast.Del))]
+        for p in ast.walk(fn.args):
+            if isinstance(p, ast.arg) and p.arg == name:
+                return known_class(p.annotation) if p.annotation is not None and not stores else None
+        found, n_assign = set(), 0
+        for st in ast.walk(fn):
+            if isinstance(st, ast.Assign) and len(st.targets) == 1 and isinstance(st.targets[0], ast.Name) and st.targets[0].id == name:
+                n_assign += 1
+                found.add(known_class(st.value.func) if isinstance(st.value, ast.Call) else None)
+        return next(iter(found)) if stores and n_assign == len(stores) and len(found) == 1 and None not in found else None
+
+    def method_params(cname, meth, depth=0):
+        if cname is None or "." + cname not in sig or depth > 6:
+            return None
+        bases, meths = sig["." + cname]
+        if meth in meths:
+            return meths[meth]
+        for b_ in bases:
+            r = method_params(b_, meth, depth + 1)
+            if r is not None or ("." + b_ in sig and meth in sig["." + b_][1]):
+                return r
+        return None
 
     class T(ast.NodeTransformer):
         def visit_Call(self, n):
@@ -315,8 +376,16 @@ def keyword_arguments(tree, sig):
                     n.keywords = [ast.keyword(arg=nm, value=a) for nm, a in zip(names, n.args)] + n.keywords
                     n.args = []
                     count[0] += 1
+            elif isinstance(n.func, ast.Attribute) and isinstance(n.func.value, ast.Name) and n.args and cur and \
+                    not any(isinstance(a, ast.Starred) for a in n.args) and not any(k.arg is None for k in n.keywords):
+                ps = method_params(local_class(cur[0], n.func.value.id), n.func.attr)
+                if ps and len(n.args) <= len(ps) and not set(ps[:len(n.args)]) & {k.arg for k in n.keywords}:
+                    n.keywords = [ast.keyword(arg=nm, value=a) for nm, a in zip(ps, n.args)] + n.keywords
+                    n.args = []
+                    count[0] += 1
             return n
     for fn in [x for x in ast.walk(tree) if isinstance(x, (ast.FunctionDef, ast.AsyncFunctionDef))]:
+        cur[:] = [fn]
         T().visit(fn)
     ast.fix_missing_locations(tree)
     return count[0]
